@@ -39,6 +39,15 @@ CLAIMED = {
  "C11": ("fault_enumeration", "explicit-state BFS over histories; every transition re-executed with a device failure at every device-call index (and every pair across the last two operations in the thorough tier)",
          "For every transition of the history exploration the real call is re-run once per block-device call with exactly that call failing (failed reads scribble the buffer): it must return Err, not panic or hang; afterwards all handles must work and close, a retried read-only call must give the fault-free answer, re-issuing the call must not create duplicate names, and bystander files must be intact on the medium.",
          MC_NOTE + " The property's random multi-fault sequences are replaced by exhaustive pairs.", "DESIGN.md section 5 C11"),
+ "C12": ("model_checking", "deviation-bounded exhaustive exploration of card-timing choice points (E2) over all call sequences up to a depth, real driver against a byte-level card model; every CSD register enumerated",
+         "For each card kind x CRC mode x every call sequence up to the depth bound, every execution with at most the stated number of departures from the default card timing (response delay, ACMD41 iterations, data-token delay, busy length menus) is run on the real driver; reads must return the card's memory, writes must change exactly the addressed blocks, capacity must follow the register's own CSD_STRUCTURE for every v1 register and (thorough) every v2 C_SIZE, and the card kind must be identified.",
+         "Trusted base: the byte-level card model (simcard.rs, from the SD physical layer spec; validated by golden frames and by mutants of the driver). Timings are menus.", "DESIGN.md section 5 C12"),
+ "C13": ("fault_enumeration", "exhaustive enumeration of card misbehaviour positions: the card dies/stays busy/sends garbage at every byte position, SPI error at every transaction, every bad token/status value, every single-bit flip and bit bursts",
+         "For each card kind x CRC mode the scenario {init, read 1, read 3, write 1, write 3, num_blocks} is re-run once per fault position/value on the real driver: no Ok read whose bytes did not appear on the wire with a matching CRC, Err for every rejected block / failed status / wrong token / bus error in both CRC modes, every call returns within 5*10^7 byte exchanges, a failed identification leaves the card uninitialised, and after healing (+mark_card_uninit) the card works again.",
+         "Trusted base: simcard.rs and the bit-serial reference CRC. Misbehaviour is three stereotypes per byte position.", "DESIGN.md section 5 C13"),
+ "C14": ("model_checking", "protocol-monitor automaton (invariant) evaluated on every execution of the C12 timing exploration plus calls after errors and re-initialisation",
+         "Every byte the real driver puts on the bus in every explored execution is fed to an independent monitor: six-byte frames with start/transmission/end bits and correct CRC-7, no frame while the card signals busy (CMD0/CMD12 exempt), ACMDs directly behind an accepted CMD55, identification order, data commands only after identification, 0xFE/0xFC tokens with exactly 512 bytes and two CRC bytes (valid when CRC is on), multi-block reads closed by CMD12 and writes by 0xFD.",
+         "Trusted base: spimon.rs (written from the SD specification), simcard.rs as the environment.", "DESIGN.md section 5 C14"),
  "C15": ("exploration", "exhaustive input enumeration: full product of valid layout parameters and single+pair boundary mutations, run through the real mount path",
          "Every layout in the stated product is formatted by an independent formatter and must be mounted, listed and read back exactly by the crate; every boundary value of every MBR/BPB/FSInfo field (singly and in pairs) and every constant-byte sector must make open_raw_volume return without panic under overflow checks.",
          "Trusted base: mkfs (independent formatter) and refat (its images are cross-checked by the self-test). Between grid points nothing is claimed.", "DESIGN.md section 5 C15"),
